@@ -315,7 +315,19 @@ func RunHelpers(o *Out, seed int64) {
 		o.Stats["help:"+l.Base]++
 	}
 	for _, fn := range []string{"WaitForAll", "WaitForAny"} {
-		for _, chans := range [][]bool{{}, {false}, {true}, {false, false}, {false, true}, {true, false}, {true, true}} {
+		// every closed/open vector of 0..5 channels (arity-specific code paths
+		// such as unrolled selects would otherwise go unseen)
+		var vecs [][]bool
+		for n := 0; n <= 5; n++ {
+			for m := 0; m < 1<<n; m++ {
+				v := []bool{}
+				for i := 0; i < n; i++ {
+					v = append(v, m&(1<<i) != 0)
+				}
+				vecs = append(vecs, v)
+			}
+		}
+		for _, chans := range vecs {
 			for _, c := range bools {
 				o.Emit(RunWaitCase(fn, chans, c))
 				o.Stats["wait:"+fn]++
